@@ -9,8 +9,9 @@ from common import Ctx, driver_batch, fmt
 
 PROPERTY = "C06"
 LEAN_MODULES = ["Proofs.C06", "Proofs.C06.Full", "Proofs.C06.Close", "Proofs.C06.CloseRel", "Proofs.C06.CloseReal",
-                "Proofs.C06.Inverse", "Proofs.C06.InverseLog"]
+                "Proofs.C06.Inverse", "Proofs.C06.InverseLog", "Proofs.C06.InversePy", "Proofs.Numerics"]
 DRIVERS = ["driver", "driver_tick"]
+EXTRA_THEOREM_PREFIXES = ["Num_"]   # Proofs/Numerics.lean: proved error bounds of the model's round35/dsqrt35, used by C06_inverse_x96_round35
 RULE = ("ticks: stride sample + boundaries + random (thorough: all 1 774 545); sqrt prices on, just above, in the middle of and just "
         "below tick boundaries; buckets = (function, sign of tick, position inside the tick interval, decimals pair, orientation)")
 TRUSTED = ["math.log is an oracle: the repaired conversion corrects any estimate by integer comparisons (theorem C06_floor holds for every estimate)",
